@@ -711,6 +711,8 @@ def judge_injected(sc, run, kind, p, errno, clean_abs, tid_hint):
     if kind == "kill":
         if not killed:
             count("injections_not_fired")
+            if run["rc"] == 0:
+                final_check(sc, res, run, killed=False)  # an ordinary complete run
             return
         count("kill_injections_fired")
         # (strace sometimes repeats the cut-off call under another thread's id when the
@@ -736,6 +738,8 @@ def judge_injected(sc, run, kind, p, errno, clean_abs, tid_hint):
     inj = [(i, e) for i, e in enumerate(ev) if e["injected"] and e["tid"] == main_tid]
     if not inj:
         count("injections_not_fired")
+        if run["rc"] == 0 and not killed:
+            final_check(sc, res, run, killed=False)  # an ordinary complete run
         return
     count("errno_injections_fired")
     count("traces_errno_model_checked")
